@@ -27,6 +27,46 @@ def _known(findings, chk, fid):
     return False
 
 
+def attr_items_removed(f):
+    if not f.startswith("N:["):
+        return f
+    items = [i for i in (f[3:-1].split(";") if f != "N:[]" else []) if "/@" not in i]
+    return "N:[" + ";".join(items) + "]"
+
+
+class Explainer:
+    """attributes a difference between the implementation and the specification model to ONE recorded finding, by the
+    behaviour it produces on this very input (DESIGN.md 4.4): the model with exactly that quirk switched on must give the
+    implementation's answer.  Anything else is a violation."""
+
+    def __init__(self, prop, chk, cases):
+        self.findings = {f["id"]: f for f in lib.load_findings(prop) if f["kind"] == "known"}
+        self.chk = chk
+        self.by_quirk = {}
+        for q, fid in (("z", "negzero-string"), ("r", "required-default")):
+            if fid in self.findings:
+                out = lib.run_lines(lib.model_driver(), [lib.req("queryq", q, t, b, *es) for t, b, es in cases], timeout=900)
+                self.by_quirk[fid] = out
+
+    def explained(self, ci, ei, n, t, e, x, y):
+        """x = implementation field, y = specification field (already different)"""
+        if "namespace::" in e or "ns:" in x or "ns:" in y:
+            if "namespace-nodes" in self.findings:
+                self.chk.known_finding("namespace-nodes " + self.findings["namespace-nodes"]["text"])
+                return True
+        for fid, outs in self.by_quirk.items():
+            f, _, _ = _fields(outs[ci], n)
+            if f[ei] == x:
+                self.chk.known_finding(fid + " " + self.findings[fid]["text"])
+                return True
+        if "default-attr-order" in self.findings and "<!ATTLIST" in t and (
+                (attr_items_removed(x) == attr_items_removed(y) and x.startswith("N:[") and ("/@dflt" in x + y or "/@n" in x + y))
+                or e.startswith("count(//@*)")):
+            self.chk.known_finding("default-attr-order " + self.findings["default-attr-order"]["text"])
+            return True
+        return False
+
+
 def classify_ns(e_text, x, y):
     """known finding `namespace-nodes`: results that differ only in namespace nodes"""
     return "namespace::" in e_text or "ns:" in x or "ns:" in y
@@ -41,18 +81,29 @@ def run_c05(chk):
     ndocs, nexpr = (600, 12) if thorough else (120, 10)
     cases = XP.gen_cases(rng, ndocs, nexpr)
     qs = [(t, XP.BINDINGS, [_spell(rng, e) for e in es]) for d, t, es in cases]
+    # attributes supplied by ATTLIST defaults: a separate small stream with direct queries (recorded finding
+    # default-attr-order is identified there by the defaulted attributes' names)
+    DEFQ = ["//@dflt", "string(//@dflt)", "string(/*/@n)", "count(//@*)", "//@*", "//*[@dflt='dv']", "name(//@dflt)", "/*/@n"]
+    for _ in range(ndocs // 6):
+        dg = G.DocGen(rng, defaults=True)
+        dg.dtd = True
+        d = dg.document()
+        while d["dtd"] is None:
+            d = dg.document()
+        cases.append((d, G.render_doc(d), [("lit", q) for q in DEFQ]))
+        qs.append((G.render_doc(d), XP.BINDINGS, DEFQ))
     impl, spec = XP.run_queries("qfresh", qs, quirks="")
-    cur = lib.run_lines(lib.model_driver(), [lib.req("queryq", "r", t, b, *es) for t, b, es in qs], timeout=900)
-    findings = {f["id"]: f for f in lib.load_findings("C05") if f["kind"] == "known"}
+    cur = lib.run_lines(lib.model_driver(), [lib.req("queryq", "rz", t, b, *es) for t, b, es in qs], timeout=900)
+    ex = Explainer("C05", chk, qs)
     mfail, tdis = [], []
     feats, dfeats, kinds = {}, {}, {}
-    for (d, t, asts), (_, b, es), a, s, c in zip(cases, qs, impl, spec, cur):
+    for ci, ((d, t, asts), (_, b, es), a, s, c) in enumerate(zip(cases, qs, impl, spec, cur)):
         fa, raw, _ = _fields(a, len(es))
         fs, _, _ = _fields(s, len(es))
         fc, _, _ = _fields(c, len(es))
         for f in G.doc_features(d):
             dfeats[f] = dfeats.get(f, 0) + 1
-        for ast, e, x, y, z in zip(asts, es, fa, fs, fc):
+        for ei, (ast, e, x, y, z) in enumerate(zip(asts, es, fa, fs, fc)):
             for f in G.expr_features(ast):
                 feats[f] = feats.get(f, 0) + 1
             cls = x.split(":")[0] if not x.startswith("err") else x
@@ -60,10 +111,10 @@ def run_c05(chk):
             nontriv = not x.startswith("err") and x != "N:[]" and x not in BAD
             chk.count([t, e], nontrivial=nontriv)
             if x != y:
-                if classify_ns(e, x, y) and _known(findings, chk, "namespace-nodes"):
+                if ex.explained(ci, ei, len(es), t, e, x, y):
                     continue
                 mfail.append((t, e, x, y, z))
-            elif x != z:
+            elif x != z and not ("namespace::" in e):
                 tdis.append((t, e, x, z))
     chk.cov["documents"] = ndocs
     chk.cov["document_features"] = dict(sorted(dfeats.items()))
@@ -157,7 +208,7 @@ def run_c06(chk):
     per_line = 20 if thorough else 10
     lines = [lib.req("qfresh", t, b, *es) for t, b, es in qs]
     impl = lib.run_lines(lib.build_harness(), lines, timeout=per_line * len(lines), per_line_resume=True)
-    model = lib.run_lines(lib.model_driver(), [lib.req("queryq", "r", t, b, *es) for t, b, es in qs], timeout=1800,
+    model = lib.run_lines(lib.model_driver(), [lib.req("queryq", "rz", t, b, *es) for t, b, es in qs], timeout=1800,
                           per_line_resume=True)
     bad, tdis = [], []
     kinds, outcomes = {}, {}
@@ -508,7 +559,7 @@ def run_c19(chk):
     h = lib.build_harness()
     one = lib.run_lines(h, [lib.req("query", t, b, *es) for t, b, es in qs], timeout=900, per_line_resume=True)
     fresh = lib.run_lines(h, [lib.req("qfresh", t, b, *es) for t, b, es in qs], timeout=900, per_line_resume=True)
-    model = lib.run_lines(lib.model_driver(), [lib.req("queryq", "r", t, b, *es) for t, b, es in qs], timeout=900)
+    model = lib.run_lines(lib.model_driver(), [lib.req("queryq", "rz", t, b, *es) for t, b, es in qs], timeout=900)
     # parsing twice: equal dumps and equal serializations
     p1 = lib.run_lines(h, [lib.req("parse", t) for t in texts] + [lib.req("print", t) for t in texts], timeout=600)
     p2 = lib.run_lines(h, [lib.req("parse", t) for t in texts] + [lib.req("print", t) for t in texts], timeout=600)
